@@ -292,8 +292,10 @@ func checkFramework(c FCase) (out evid.Outcome) {
 			}
 			// the message may quote the handler's own type, which lists every
 			// parameter type: the unresolvable type has to be named outside of it
-			msg := stripQuotedSignatures(fmt.Sprint(escaped))
-			if !namesOne(msg, missing) {
+			// (a missing type that is itself a function type is looked for with only
+			// the bracketed quotation removed)
+			msg := stripQuotedSignatures(fmt.Sprint(escaped), false)
+			if !namesOne(msg, missing) && !(strings.Contains(missing, "func(") && namesOne(stripQuotedSignatures(fmt.Sprint(escaped), true), missing)) {
 				return ffail(out, s.classes, "framework-panic-text", "panic %q names none of the unresolvable types %s (outside the handler's own signature); %s", escaped, showMissing(missing), desc)
 			}
 		} else if escaped != nil {
@@ -394,20 +396,39 @@ func TestFramework(t *testing.T) {
 // bracketed groups ("[pkg.name:func(...)]", nested brackets of slice types
 // included) and func(...) type expressions. The parameter types listed there
 // name every parameter, resolvable or not.
-func stripQuotedSignatures(msg string) string {
+func stripQuotedSignatures(msg string, keepFuncTypes bool) string {
+	// a bracketed group is dropped when it quotes a function ("[pkg.name:func(...)]");
+	// the brackets of a type's own spelling ([]string, [2]T, map[string]T) stay
 	var b strings.Builder
-	depth := 0
 	for i := 0; i < len(msg); i++ {
-		switch c := msg[i]; {
-		case c == '[':
-			depth++
-		case c == ']' && depth > 0:
-			depth--
-		case depth == 0:
-			b.WriteByte(c)
+		if msg[i] != '[' {
+			b.WriteByte(msg[i])
+			continue
 		}
+		depth, j := 1, i+1
+		for j < len(msg) && depth > 0 {
+			switch msg[j] {
+			case '[':
+				depth++
+			case ']':
+				depth--
+			}
+			j++
+		}
+		if group := msg[i:j]; depth == 0 && strings.Contains(group, "func(") {
+			i = j - 1
+			continue
+		}
+		b.WriteByte(msg[i])
 	}
-	out := b.String()
+	return stripBareSignatures(b.String(), keepFuncTypes)
+}
+
+// stripBareSignatures replaces function signatures quoted without brackets.
+func stripBareSignatures(out string, keep bool) string {
+	if keep {
+		return out
+	}
 	for {
 		i := strings.Index(out, "func(")
 		if i < 0 {
